@@ -1210,7 +1210,7 @@ Proof. intros b L st c st' e e' sg Hw. exact (proj2 sim_all b Hw L st c st' e e'
 (* the relation holds between the initial states *)
 Lemma Inv_l0 : Inv l0.
 Proof.
-  constructor; cbn; try (intros; discriminate); try constructor.
+  apply mkInv; cbn; try (intros; discriminate); try (intros ? []); try constructor.
 Qed.
 Lemma Rel_init : forall script, Rel [] l0 (e0 script) (m0 script).
 Proof.
